@@ -373,7 +373,12 @@ def run_check(mod, tier, seed, replay=None):
                 continue
             if mod.nontrivial(c):
                 stats["nontrivial"].add(case_hash(c))
-            if len(samples) < 6 and (mod.nontrivial(c) or len(samples) < 2) and rng.random() < 0.3:
+            if mod.nontrivial(c):      # evidence samples: a small random reservoir of non-trivial cases
+                if len(samples) < 6:
+                    samples.append({"case": c, "impl": got, "expected": exp})
+                elif rng.random() < 0.002:
+                    samples[rng.randrange(6)] = {"case": c, "impl": got, "expected": exp}
+            elif not samples:
                 samples.append({"case": c, "impl": got, "expected": exp})
             stats["oracle_compared"] += 1
             ok = mod.agree(c, got, exp) if hasattr(mod, "agree") else canon(got) == canon(exp)
